@@ -1,10 +1,16 @@
 """Generators, line format, spec-level incident analysis and property oracles for the notifier layer (C13, C14, C10-notifier).
 
 Case line (see /verif/ocaml/drv_notifier.ml for the exact grammar):
-  hist T0  NM {thr ivl once close accg allow deny}  NN {name {rx4}*NM}  NP {cluster nameidx}  NS {dt pair status}
+  hist T0  NM {thr ivl once close accg allow deny}  NN {name {rx4}*NM}  NP {cluster nameidx}  NS {step}
+  step = r dt pair status | g dt cluster n idx*n (n = -1: reply channel closed) | c dt n {cluster m idx*m}
 A history is kept as a dict:
   {"kind", "t0", "mods": [{"thr","iv","once","close","accg","allow","deny"}], "names": [str],
-   "pairs": [(cluster, nameidx)], "steps": [(dt_ns, pair, status)]}
+   "pairs": [(cluster, nameidx)], "steps": [step]}
+  step = (dt_ns, pair, status)                                  an evaluator response
+       | (dt_ns, "g", 0, cluster, [nameidx] | None)             processConsumerList(cluster, list); None = closed reply channel
+       | (dt_ns, "c", 0, [(cluster, [nameidx] | None)])         a whole refresh cycle (cluster list, then one group list per cluster)
+Nothing is registered implicitly: cluster entries and group records exist only through "c" / "g" steps (a legacy line
+whose steps are bare triples is read as: one refresh cycle listing every pair, then the responses).
 """
 import re
 
@@ -43,6 +49,27 @@ def iv_of(mod):
     return 60 if mod["iv"] == "d" else int(mod["iv"])
 
 
+def is_resp(st):
+    return not isinstance(st[1], str)
+
+
+def _fmt_list(gs):
+    if gs is None:
+        return ["-1"]
+    return [str(len(gs))] + [str(g) for g in gs]
+
+
+def fmt_step(st):
+    if is_resp(st):
+        return ["r", str(st[0]), str(st[1]), str(st[2])]
+    if st[1] == "g":
+        return ["g", str(st[0]), str(st[3])] + _fmt_list(st[4])
+    out = ["c", str(st[0]), str(len(st[3]))]
+    for cl, gs in st[3]:
+        out += [str(cl)] + _fmt_list(gs)
+    return out
+
+
 def fmt(h):
     out = [h.get("kind", KIND), str(h["t0"]), str(len(h["mods"]))]
     for m in h["mods"]:
@@ -56,9 +83,18 @@ def fmt(h):
     for c, g in h["pairs"]:
         out += [str(c), str(g)]
     out.append(str(len(h["steps"])))
-    for dt, p, s in h["steps"]:
-        out += [str(dt), str(p), str(s)]
+    for st in h["steps"]:
+        out += fmt_step(st)
     return " ".join(out)
+
+
+def register_all(pairs, dt=0):
+    """The refresh cycle that lists every pair: what a legacy history assumed had happened before its first response."""
+    cl = []
+    for c, _ in pairs:
+        if c not in cl:
+            cl.append(c)
+    return (dt, "c", 0, [(c, [g for c2, g in pairs if c2 == c]) for c in cl])
 
 
 def parse(line):
@@ -68,6 +104,10 @@ def parse(line):
     def nx():
         pos[0] += 1
         return f[pos[0] - 1]
+
+    def glist():
+        n = int(nx())
+        return None if n < 0 else [int(nx()) for _ in range(n)]
     h = {"kind": nx(), "t0": int(nx()), "mods": [], "names": [], "pairs": [], "steps": []}
     nm = int(nx())
     for _ in range(nm):
@@ -80,13 +120,28 @@ def parse(line):
             nx()
     for _ in range(int(nx())):
         h["pairs"].append((int(nx()), int(nx())))
+    legacy = False
     for _ in range(int(nx())):
-        h["steps"].append((int(nx()), int(nx()), int(nx())))
+        k = nx()
+        if k == "r":
+            h["steps"].append((int(nx()), int(nx()), int(nx())))
+        elif k == "g":
+            dt, cl = int(nx()), int(nx())
+            h["steps"].append((dt, "g", 0, cl, glist()))
+        elif k == "c":
+            dt = int(nx())
+            h["steps"].append((dt, "c", 0, [(int(nx()), glist()) for _ in range(int(nx()))]))
+        else:
+            legacy = True
+            h["steps"].append((int(k), int(nx()), int(nx())))
+    if legacy:
+        h["steps"].insert(0, register_all(h["pairs"]))
     return h
 
 
 def parse_output(line):
-    """-> (steps: [[(module, cluster, nameidx, status, id, start, good)]], groups: [str], extra) or None if malformed."""
+    """-> (steps: [[(module, cluster, nameidx, status, id, start, good)]], final: [str] (cluster entries, then the
+    records), extra) or None if malformed."""
     if " || " not in line:
         return None
     left, right = line.split(" || ", 1)
@@ -109,30 +164,79 @@ def parse_output(line):
 
 
 # ---------------------------------------------------------------------------------------------
-# spec-level reading of a history (independent of the model): incidents per (cluster, group)
+# spec-level reading of a history (independent of the model): the notifier's list, incidents per (cluster, group)
 # ---------------------------------------------------------------------------------------------
 
+class Listing:
+    """What the lists received so far say (NotifierProofs.listing): cluster entries and listed (cluster, nameidx) keys."""
+
+    def __init__(self):
+        self.known = set()
+        self.listed = set()
+
+    def group_list(self, cl, gs):
+        if cl not in self.known:
+            return
+        self.listed = {k for k in self.listed if k[0] != cl} | {(cl, g) for g in (gs or [])}
+
+    def apply(self, st):
+        """Takes in a refresh step; returns (removed keys, added keys)."""
+        before = set(self.listed)
+        if st[1] == "g":
+            self.group_list(st[3], st[4])
+        else:
+            cs = [cl for cl, _ in st[3]]
+            self.listed = {k for k in self.listed if k[0] in cs and k[0] in self.known}
+            self.known = set(cs)
+            seen = set()
+            for cl, gs in st[3]:
+                if cl not in seen:          # one request per distinct cluster; the first entry is the answer
+                    seen.add(cl)
+                    self.group_list(cl, gs)
+        return before - self.listed, self.listed - before
+
+
 def analyse(h):
-    """Per step: clock, the index of the opening result of the incident the step belongs to (None = no incident),
-    whether it is the closing OK, and a segment id (incident or quiet period) per pair.  NOTFOUND results belong to nothing."""
+    """Per step: clock, and for a response the index of the opening result of the incident the step belongs to (None = no
+    incident), whether it is the closing OK, and a segment id (incident or quiet period) per group.  NOTFOUND results and
+    results for a group that is not on the notifier's list belong to nothing (dropped).  An incident ends at its closing
+    OK, or - without a close - when a refresh takes the group off the list ("lost")."""
     clock = h["t0"]
+    L = Listing()
     open_at = {}
     seg = {}
     info = []
-    for dt, p, s in h["steps"]:
-        clock += dt
-        if s == 0:
-            info.append({"clock": clock, "pair": p, "status": s, "inc": None, "closing": False, "seg": None, "dropped": True})
+    for idx, st in enumerate(h["steps"]):
+        clock += st[0]
+        if not is_resp(st):
+            open_before = {k for k, v in open_at.items() if v is not None}
+            removed, added = L.apply(st)
+            lost = []
+            for k in sorted(removed):
+                if open_at.get(k) is not None:
+                    lost.append(open_at[k])
+                    open_at[k] = None
+                seg[k] = seg.get(k, 0) + 1
+            info.append({"clock": clock, "pair": None, "key": None, "status": None, "inc": None, "closing": False, "seg": None,
+                         "dropped": True, "kind": st[1], "removed": sorted(removed), "added": sorted(added), "lost": lost,
+                         "kept_open": sorted(open_before & L.listed)})
             continue
-        if open_at.get(p) is None and s > 1:
-            open_at[p] = len(info)
-            seg[p] = seg.get(p, 0) + 1
-        inc = open_at.get(p)
+        _, p, s = st
+        key = h["pairs"][p]
+        if s == 0 or key not in L.listed:
+            info.append({"clock": clock, "pair": p, "key": key, "status": s, "inc": None, "closing": False, "seg": None,
+                         "dropped": True, "kind": "r", "unlisted": key not in L.listed, "noentry": key[0] not in L.known})
+            continue
+        if open_at.get(key) is None and s > 1:
+            open_at[key] = len(info)
+            seg[key] = seg.get(key, 0) + 1
+        inc = open_at.get(key)
         closing = inc is not None and s == 1
-        info.append({"clock": clock, "pair": p, "status": s, "inc": inc, "closing": closing, "seg": (p, seg.get(p, 0)), "dropped": False})
+        info.append({"clock": clock, "pair": p, "key": key, "status": s, "inc": inc, "closing": closing,
+                     "seg": (key, seg.get(key, 0)), "dropped": False, "kind": "r", "unlisted": False})
         if closing:
-            open_at[p] = None
-            seg[p] = seg.get(p, 0) + 1
+            open_at[key] = None
+            seg[key] = seg.get(key, 0) + 1
     return info
 
 
@@ -140,7 +244,7 @@ def incidents_per_pair(h):
     cnt = {}
     for i, st in enumerate(analyse(h)):
         if st["inc"] == i:
-            cnt[st["pair"]] = cnt.get(st["pair"], 0) + 1
+            cnt[st["key"]] = cnt.get(st["key"], 0) + 1
     return cnt
 
 
@@ -149,13 +253,14 @@ def nontrivial(h):
     return any(v >= 2 for v in incidents_per_pair(h).values())
 
 
-def module_accepts(h, mi, pair):
+def module_accepts(h, mi, key):
     m = h["mods"][mi]
-    return lists_accept(m, h["names"][h["pairs"][pair][1]]) and m["accg"]
+    return lists_accept(m, h["names"][key[1]]) and m["accg"]
 
 
 def oracle_c13(h, out):
-    """Property C13 evaluated on a call log.  Returns a list of failure strings (empty = holds)."""
+    """Property C13 evaluated on a call log.  Returns a list of failure strings (empty = holds).  An incident keeps its
+    identity across every refresh that still lists the group; for an incident lost to a refresh nothing is demanded."""
     bad = []
     po = parse_output(out)
     info = analyse(h)
@@ -164,7 +269,12 @@ def oracle_c13(h, out):
     steps = po[0]
     inc_id = {}
     for i, (st, calls) in enumerate(zip(info, steps)):
-        cl, gi = h["pairs"][st["pair"]]
+        if st["kind"] != "r":
+            for cc in calls:
+                bad.append(("close: step %d (a refresh) sent a close notification" if cc[6]
+                            else "identity: step %d (a refresh) sent a notification") % i)
+            continue
+        cl, gi = st["key"]
         for (m, c, g, status, eid, start, good) in calls:
             if c != "c%d" % cl or g != "g%d" % gi:
                 bad.append("identity: step %d notifies about %s/%s instead of c%d/g%d" % (i, c, g, cl, gi))
@@ -180,7 +290,7 @@ def oracle_c13(h, out):
         if st["closing"]:
             for mi, m in enumerate(h["mods"]):
                 n = sum(1 for cc in calls if cc[0] == mi + 1 and cc[6])
-                want = 1 if (m["close"] and module_accepts(h, mi, st["pair"])) else 0
+                want = 1 if (m["close"] and module_accepts(h, mi, st["key"])) else 0
                 if n != want:
                     bad.append("close: step %d module m%d got %d close notifications, expected %d" % (i, mi + 1, n, want))
     ids = list(inc_id.values())
@@ -190,7 +300,8 @@ def oracle_c13(h, out):
 
 
 def oracle_c14(h, out):
-    """Property C14 evaluated on a call log (interval and send-once counted within an incident / within a quiet period)."""
+    """Property C14 evaluated on a call log (interval and send-once counted within an incident / within a quiet period;
+    what a module was sent is remembered across every refresh that still lists the group)."""
     bad = []
     po = parse_output(out)
     info = analyse(h)
@@ -205,12 +316,16 @@ def oracle_c14(h, out):
             if good:
                 continue
             mod = h["mods"][m - 1]
+            if st["kind"] != "r":
+                bad.append("threshold: step %d (a refresh) sent a notification" % i)
+                continue
             if st["dropped"]:
-                bad.append("threshold: step %d NOTFOUND result was notified" % i)
+                bad.append("threshold: step %d %s was notified" % (i, "a result for a group that is not on the list"
+                                                                   if st.get("unlisted") else "NOTFOUND result"))
                 continue
             if status != st["status"] or st["status"] < thr_of(mod):
                 bad.append("threshold: step %d module m%d notified for status %d below threshold %s" % (i, m, st["status"], mod["thr"]))
-            if not lists_accept(mod, h["names"][h["pairs"][st["pair"]][1]]):
+            if not lists_accept(mod, h["names"][st["key"][1]]):
                 bad.append("lists: step %d module m%d notified about a group its lists reject" % (i, m))
             elif not mod["accg"]:
                 bad.append("lists: step %d module m%d notified although AcceptConsumerGroup is false" % (i, m))
@@ -228,7 +343,7 @@ def oracle_c14(h, out):
                 announced.add((m, st["inc"]))
         if st["inc"] is not None:
             for mi, mod in enumerate(h["mods"]):
-                if st["status"] >= thr_of(mod) and module_accepts(h, mi, st["pair"]) and (mi + 1, st["inc"]) not in announced:
+                if st["status"] >= thr_of(mod) and module_accepts(h, mi, st["key"]) and (mi + 1, st["inc"]) not in announced:
                     bad.append("announced: incident opened at step %d reached threshold of m%d at step %d without an open notification" % (st["inc"], mi + 1, i))
                     announced.add((mi + 1, st["inc"]))
     return bad
@@ -242,7 +357,9 @@ def oracle_c10(h, out):
         return ["malformed output"]
     for i, (st, calls) in enumerate(zip(info, po[0])):
         for cc in calls:
-            if not lists_accept(h["mods"][cc[0] - 1], h["names"][h["pairs"][st["pair"]][1]]):
+            if st["key"] is None:
+                bad.append("lists: step %d (a refresh) notified module m%d" % (i, cc[0]))
+            elif not lists_accept(h["mods"][cc[0] - 1], h["names"][st["key"][1]]):
                 bad.append("lists: step %d module m%d notified about a rejected group" % (i, cc[0]))
     return bad
 
@@ -298,8 +415,74 @@ def gen_dt(rng, ivs, flavour):
     return rng.choice([0, 1, 59 * SEC, 60 * SEC, 61 * SEC, 60 * SEC + 1, 60 * SEC - 1, 10 * SEC, 30 * SEC, 120 * SEC])
 
 
-def gen_history(rng, idx, focus="mixed"):
-    """focus: "groups" (several pairs interleaved, C13) | "clock" (one or two pairs, boundary clock steps, C14) | "mixed"."""
+REFRESH_KINDS = ["all", "all", "all", "all", "superset", "subset", "subset", "empty", "closed", "other-cluster",
+                 "unknown-cluster", "dup", "cycle", "cycle", "cycle-drop-cluster", "cycle-subset"]
+
+
+def gen_refresh(rng, kind, dt, pairs, nnames, L, target=None):
+    """One refresh step.  `target` = the key the refresh is aimed at (a group with an open incident, or the group of the next
+    response); "subset" drops it, the other kinds keep it when they concern its cluster."""
+    clusters = sorted({c for c, _ in pairs})
+    cl = target[0] if target is not None else rng.choice(clusters)
+    mine = [g for c, g in pairs if c == cl]
+    spare = [g for g in range(nnames) if g not in mine]
+
+    def full(c):
+        return [g for c2, g in pairs if c2 == c]
+    if kind == "all":
+        gs = list(mine)
+        rng.shuffle(gs)
+        return (dt, "g", 0, cl, gs)
+    if kind == "superset":
+        gs = mine + rng.sample(spare, min(len(spare), rng.choice([1, 1, 2])))
+        rng.shuffle(gs)
+        return (dt, "g", 0, cl, gs)
+    if kind == "subset":
+        drop = {target[1]} if target is not None else {rng.choice(mine)}
+        if rng.random() < 0.3 and len(mine) > 1:
+            drop.add(rng.choice(mine))
+        return (dt, "g", 0, cl, [g for g in mine if g not in drop])
+    if kind == "empty":
+        return (dt, "g", 0, cl, [])
+    if kind == "closed":
+        return (dt, "g", 0, cl, None)
+    if kind == "other-cluster":
+        others = [c for c in clusters if c != cl]
+        gs = full(rng.choice(others)) if others else list(spare)
+        return (dt, "g", 0, cl, gs)
+    if kind == "unknown-cluster":
+        return (dt, "g", 0, max(clusters) + rng.choice([1, 2]), list(mine))
+    if kind == "dup":
+        gs = mine + [rng.choice(mine)]
+        rng.shuffle(gs)
+        return (dt, "g", 0, cl, gs)
+    if kind == "cycle":
+        ent = [(c, full(c)) for c in clusters]
+        rng.shuffle(ent)
+        if rng.random() < 0.15:
+            ent.append((rng.choice(clusters), []))          # a repeated cluster name: the first entry is the answer
+        if rng.random() < 0.15:
+            ent.append((max(clusters) + 1, list(spare[:1])))  # a cluster no response refers to
+        return (dt, "c", 0, ent)
+    if kind == "cycle-drop-cluster":
+        keep = [c for c in clusters if c != cl]
+        return (dt, "c", 0, [(c, full(c)) for c in keep])
+    if kind == "cycle-subset":
+        ent = []
+        for c in clusters:
+            gs = full(c)
+            if c == cl:
+                drop = target[1] if target is not None else rng.choice(gs)
+                gs = [g for g in gs if g != drop]
+            ent.append((c, gs if rng.random() >= 0.1 else None))
+        return (dt, "c", 0, ent)
+    raise ValueError(kind)
+
+
+def gen_history(rng, idx, focus="mixed", refresh=True):
+    """focus: "groups" (several pairs interleaved, C13) | "clock" (one or two pairs, boundary clock steps, C14) | "mixed".
+    Refresh steps are put before the first response (the registration), and - aimed at the group of the response that
+    follows - between the results of an open incident, just before a closing OK, and outside incidents."""
     if focus == "mixed":
         focus = rng.choice(["groups", "clock"])
     nm = rng.choice([1, 1, 2, 2, 3, 4])
@@ -309,7 +492,7 @@ def gen_history(rng, idx, focus="mixed"):
         ngroups, nclusters = rng.choice([1, 2, 2, 3, 3]), rng.choice([1, 1, 2])
     else:
         ngroups, nclusters = rng.choice([1, 1, 1, 2]), 1
-    names = rng.sample(NAME_POOL, ngroups)
+    names = rng.sample(NAME_POOL, min(len(NAME_POOL), ngroups + rng.choice([0, 1, 1, 2])))
     allp = [(c + 1, g) for c in range(nclusters) for g in range(ngroups)]
     rng.shuffle(allp)
     pairs = allp[:max(1, rng.randrange(ngroups, len(allp) + 1))]
@@ -318,43 +501,124 @@ def gen_history(rng, idx, focus="mixed"):
     per_pair = {p: gen_statuses(rng, n, flav) for p in range(len(pairs))}
     ivs = [iv_of(m) for m in mods]
     dflav = "boundary" if focus == "clock" or rng.random() < 0.3 else "any"
+    # how much refreshing: none after the registration / the production pattern (every list repeats every group) / anything
+    rmode = rng.choice(["none", "benign", "any", "any", "any"]) if refresh else "none"
     steps = []
+    L = Listing()
+    open_inc = set()
+    r0 = rng.random()
+    if r0 < 0.90:
+        steps.append(register_all(pairs, rng.choice([0, 0, SEC])))
+    elif r0 < 0.95:
+        # group lists arrive before any cluster list (nothing happens), the registration comes later or never
+        steps.append(gen_refresh(rng, "all", 0, pairs, len(names), L))
+    for st in steps:
+        L.apply(st)
     used = {p: 0 for p in per_pair}
     for _ in range(n):
         p = rng.randrange(len(pairs))
-        steps.append((gen_dt(rng, ivs, dflav), p, per_pair[p][used[p]]))
+        s = per_pair[p][used[p]]
         used[p] += 1
+        key = pairs[p]
+        is_open = key in open_inc
+        if rmode != "none":
+            pr = (0.30 if s == 1 else 0.22) if is_open else 0.07
+            if key not in L.listed:
+                pr = 0.5
+            if rng.random() < pr:
+                if key not in L.listed:
+                    kind = rng.choice(["all", "cycle", "cycle", "superset"])
+                elif rmode == "benign":
+                    kind = rng.choice(["all", "all", "superset", "cycle", "dup"])
+                else:
+                    kind = rng.choice(REFRESH_KINDS)
+                aimed = key if rng.random() < 0.8 else None
+                if aimed is None and open_inc and rng.random() < 0.5:
+                    aimed = rng.choice(sorted(open_inc))
+                rst = gen_refresh(rng, kind, gen_dt(rng, ivs, dflav) if rng.random() < 0.5 else 0, pairs, len(names), L, aimed)
+                steps.append(rst)
+                removed, _ = L.apply(rst)
+                open_inc -= removed
+        steps.append((gen_dt(rng, ivs, dflav), p, s))
+        if s != 0 and key in L.listed:
+            if s > 1:
+                open_inc.add(key)
+            elif s == 1:
+                open_inc.discard(key)
+    if rmode != "none" and rng.random() < 0.1:
+        steps.append(gen_refresh(rng, rng.choice(REFRESH_KINDS), 0, pairs, len(names), L))
     h = {"kind": KIND, "t0": T0, "mods": mods, "names": names, "pairs": pairs, "steps": steps}
-    return h, [focus, flav, dflav]
+    return h, [focus, flav, dflav, rmode]
 
 
-def f3_witness(once=True, close=False, thr=2, iv=60):
-    """DESIGN.md section 5, F3: ERR, OK, ERR, ERR one second apart."""
+def f3_witness(once=True, close=False, thr=2, iv=60, refresh=False):
+    """DESIGN.md section 5, F3: ERR, OK, ERR, ERR one second apart (optionally with a refresh before each result)."""
+    pairs = [(1, 0)]
+    steps = [register_all(pairs)]
+    for s in (3, 1, 3, 3):
+        if refresh:
+            steps.append((0, "g", 0, 1, [0]))
+        steps.append((SEC, 0, s))
     return {"kind": KIND, "t0": T0,
             "mods": [{"thr": thr, "iv": iv, "once": once, "close": close, "accg": True, "allow": "-", "deny": "-"}],
-            "names": ["q"], "pairs": [(1, 0)], "steps": [(SEC, 0, 3), (SEC, 0, 1), (SEC, 0, 3), (SEC, 0, 3)]}
+            "names": ["q"], "pairs": pairs, "steps": steps}
+
+
+def refresh_witnesses():
+    """Hand-made histories around the refresh (always run): an incident with a refresh before every result, listing all / a
+    superset; the group dropped in mid-incident and listed again; a cluster dropped and listed again."""
+    out = []
+    for m in ({"thr": 2, "iv": 0, "once": False, "close": True}, {"thr": 2, "iv": 60, "once": True, "close": True},
+              {"thr": 3, "iv": 60, "once": False, "close": False}):
+        mod = dict(m, accg=True, allow="-", deny="-")
+        base = {"kind": KIND, "t0": T0, "mods": [mod], "names": ["q", "ab"], "pairs": [(1, 0), (1, 1)]}
+        reg = register_all(base["pairs"])
+        keep = (0, "g", 0, 1, [1, 0])
+        sup = (SEC, "g", 0, 1, [0, 1, 1])
+        cyc = (0, "c", 0, [(1, [0, 1])])
+        drop = (0, "g", 0, 1, [1])
+        out.append(dict(base, steps=[reg, (SEC, 0, 3), keep, (SEC, 0, 3), sup, (61 * SEC, 0, 3), cyc, (SEC, 0, 1), keep, (SEC, 0, 3), (SEC, 0, 1)]))
+        out.append(dict(base, steps=[reg, (SEC, 0, 3), (SEC, 1, 2), drop, (SEC, 0, 1), (SEC, 1, 3), keep, (SEC, 0, 3), (SEC, 1, 1), (SEC, 0, 1)]))
+        out.append(dict(base, steps=[reg, (SEC, 0, 3), (0, "c", 0, []), (SEC, 0, 3), cyc, (SEC, 0, 3), (SEC, 0, 1)]))
+    return out
+
+
+def _shorter(gs):
+    return [] if gs is None else [gs[:i] + gs[i + 1:] for i in range(len(gs))]
 
 
 def deletions(h):
-    """All histories obtained by deleting one step, one module, or one unused pair (the deleted step's clock step is
-    added to its successor so that the clocks of the remaining steps do not move)."""
+    """All histories obtained by deleting one step, one module, one unused pair, or one entry of a refresh step's lists
+    (the deleted step's clock step is added to its successor so that the clocks of the remaining steps do not move)."""
     out = []
     for i in range(len(h["steps"])):
         st = list(h["steps"])
         dt = st[i][0]
         del st[i]
         if i < len(st):
-            st[i] = (st[i][0] + dt, st[i][1], st[i][2])
+            st[i] = (st[i][0] + dt,) + tuple(st[i][1:])
         out.append(dict(h, steps=st))
     if len(h["mods"]) > 1:
         for i in range(len(h["mods"])):
             out.append(dict(h, mods=[m for j, m in enumerate(h["mods"]) if j != i]))
-    used = {p for _, p, _ in h["steps"]}
+    used = {st[1] for st in h["steps"] if is_resp(st)}
     for p in range(len(h["pairs"])):
         if p not in used and len(h["pairs"]) > 1:
             ren = {q: (q if q < p else q - 1) for q in range(len(h["pairs"]))}
             out.append(dict(h, pairs=[x for j, x in enumerate(h["pairs"]) if j != p],
-                            steps=[(dt, ren[q], s) for dt, q, s in h["steps"]]))
+                            steps=[(st[0], ren[st[1]], st[2]) if is_resp(st) else st for st in h["steps"]]))
+    for i, st in enumerate(h["steps"]):
+        if is_resp(st):
+            continue
+        if st[1] == "g":
+            for gs in _shorter(st[4]):
+                out.append(dict(h, steps=h["steps"][:i] + [(st[0], "g", 0, st[3], gs)] + h["steps"][i + 1:]))
+        else:
+            for j, (cl, gs) in enumerate(st[3]):
+                if len(st[3]) > 1:
+                    out.append(dict(h, steps=h["steps"][:i] + [(st[0], "c", 0, st[3][:j] + st[3][j + 1:])] + h["steps"][i + 1:]))
+                for g2 in _shorter(gs):
+                    out.append(dict(h, steps=h["steps"][:i] + [(st[0], "c", 0, st[3][:j] + [(cl, g2)] + st[3][j + 1:])] + h["steps"][i + 1:]))
     return out
 
 
@@ -383,7 +647,7 @@ def run_impl(chk, hs, name):
     return lines
 
 
-def shrink(chk, h, out, oracle, rules, budget=40):
+def shrink(chk, h, out, oracle, rules, budget=80):
     """Deletes steps / modules while the oracle still reports one of `rules` on the implementation's output."""
     rounds = 0
     while rounds < budget:
@@ -405,10 +669,80 @@ def shrink(chk, h, out, oracle, rules, budget=40):
 
 def describe(h):
     info = analyse(h)
+
+    def gl(gs):
+        return "(reply channel closed)" if gs is None else "[%s]" % ",".join(h["names"][g] for g in gs)
+    ev = []
+    for st, raw in zip(info, h["steps"]):
+        t = "t=+%.9fs " % ((st["clock"] - h["t0"]) / SEC)
+        if st["kind"] == "r":
+            note = ""
+            if st["dropped"] and st["status"] != 0:
+                note = "  (dropped: the group is not on the notifier's list)"
+            elif st["inc"] is not None:
+                note = "  (incident opened at step %d%s)" % (st["inc"], ", closing OK" if st["closing"] else "")
+            ev.append(t + "result c%d/%s %s%s" % (st["key"][0], h["names"][st["key"][1]], STATUS_NAME.get(st["status"], st["status"]), note))
+        else:
+            if st["kind"] == "g":
+                what = "group list for c%d: %s" % (raw[3], gl(raw[4]))
+            else:
+                what = "refresh cycle: clusters [%s]" % ", ".join("c%d: %s" % (cl, gl(gs)) for cl, gs in raw[3])
+            eff = []
+            if st["kept_open"]:
+                eff.append("keeps listed with an open incident: " + ",".join("c%d/%s" % (c, h["names"][g]) for c, g in st["kept_open"]))
+            if st["removed"]:
+                eff.append("takes off the list: " + ",".join("c%d/%s" % (c, h["names"][g]) for c, g in st["removed"]))
+            if st["lost"]:
+                eff.append("incidents lost (opened at steps %s)" % st["lost"])
+            if st["added"]:
+                eff.append("puts on the list: " + ",".join("c%d/%s" % (c, h["names"][g]) for c, g in st["added"]))
+            ev.append(t + what + ("  (" + "; ".join(eff) + ")" if eff else ""))
     return {"modules": ["m%d thr=%s send-interval=%s once=%d close=%d acceptgroup=%d allow=%s deny=%s" % (
         i + 1, m["thr"], m["iv"], m["once"], m["close"], m["accg"], m["allow"], m["deny"]) for i, m in enumerate(h["mods"])],
-        "results": ["t=+%.9fs c%d/%s %s" % ((st["clock"] - h["t0"]) / SEC, h["pairs"][st["pair"]][0],
-                                             h["names"][h["pairs"][st["pair"]][1]], STATUS_NAME.get(st["status"], st["status"])) for st in info]}
+        "events": ["%d: %s" % (i, e) for i, e in enumerate(ev)]}
+
+
+def count_refreshes(chk, h):
+    """Input distribution of the refresh steps: where they fall and what they do."""
+    info = analyse(h)
+    first_resp = next((i for i, st in enumerate(info) if st["kind"] == "r"), len(info))
+    nref = 0
+    for i, (st, raw) in enumerate(zip(info, h["steps"])):
+        if st["kind"] == "r":
+            if st["dropped"] and st.get("noentry"):
+                chk.count("result:for-a-cluster-without-entry(model only; the probe does not run it)")
+            elif st["dropped"] and st.get("unlisted") and st["status"] != 0:
+                chk.count("result:for-a-group-off-the-list")
+            continue
+        nref += 1
+        chk.count("refresh:kind=%s" % ("group-list" if st["kind"] == "g" else "cycle"))
+        if st["kind"] == "g":
+            gs = raw[4]
+            chk.count("refresh:list=%s" % ("closed-channel" if gs is None else "empty" if not gs else "dup" if len(set(gs)) < len(gs) else "plain"))
+        nxt = info[i + 1] if i + 1 < len(info) else None
+        if i < first_resp:
+            chk.count("refresh-pos:before-first-response")
+        elif st["kept_open"] or st["lost"]:
+            chk.count("refresh-pos:inside-an-open-incident")
+            if nxt is not None and nxt["kind"] == "r" and nxt["closing"] and nxt["key"] in st["kept_open"]:
+                chk.count("refresh-pos:just-before-the-closing-OK")
+        else:
+            chk.count("refresh-pos:outside-incidents")
+        if st["kept_open"]:
+            chk.count("refresh-effect:keeps-a-group-with-open-incident")
+        if st["lost"]:
+            chk.count("refresh-effect:drops-a-group-with-open-incident")
+        if st["removed"] and not st["lost"]:
+            chk.count("refresh-effect:drops-a-quiet-group")
+        if st["added"]:
+            chk.count("refresh-effect:adds-a-group" + ("-again" if i >= first_resp else ""))
+        if not st["removed"] and not st["added"]:
+            chk.count("refresh-effect:list-unchanged")
+    chk.count("refreshes-per-history:%s" % ("0" if nref == 0 else "1" if nref == 1 else "2-4" if nref <= 4 else "5+"))
+    relisted = any(st["kind"] == "r" and st["inc"] == i and any(i2 < i and i3["kind"] != "r" and st["key"] in i3["removed"]
+                                                                  for i2, i3 in enumerate(info)) for i, st in enumerate(info))
+    if relisted:
+        chk.count("incident-opened-after-relisting")
 
 
 def check_body(chk, failed, pid, oracle, focus_weights, n_quick, n_thorough, corr_name):
@@ -417,11 +751,15 @@ def check_body(chk, failed, pid, oracle, focus_weights, n_quick, n_thorough, cor
     hs, tags = [], []
     for ln in C.read_corpus(pid):
         hs.append(parse(ln))
-        tags.append(["corpus", "-", "-"])
-    # the F3 witnesses always run (regression of the repaired defect)
+        tags.append(["corpus", "-", "-", "-"])
+    # the F3 witnesses always run (regression of the repaired defect), plain and with a refresh before every result
     for once, close, iv in ((True, False, 60), (False, False, 60), (True, True, 60), (True, False, 0)):
-        hs.append(f3_witness(once=once, close=close, iv=iv))
-        tags.append(["f3-witness", "-", "-"])
+        for rf in (False, True):
+            hs.append(f3_witness(once=once, close=close, iv=iv, refresh=rf))
+            tags.append(["f3-witness", "-", "-", "-"])
+    for h in refresh_witnesses():
+        hs.append(h)
+        tags.append(["refresh-witness", "-", "-", "-"])
     for i in range(n):
         h, tg = gen_history(chk.rng, i, chk.rng.choice(focus_weights))
         hs.append(h)
@@ -436,10 +774,13 @@ def check_body(chk, failed, pid, oracle, focus_weights, n_quick, n_thorough, cor
         chk.count("focus:" + tg[0])
         chk.count("statuses:" + tg[1])
         chk.count("clock:" + tg[2])
+        chk.count("refresh-mode:" + tg[3])
         chk.count("modules:%d" % len(h["mods"]))
         chk.count("pairs:%d" % len(h["pairs"]))
         chk.count("max-incidents-per-group:%s" % min(max(inc.values()) if inc else 0, 5))
-        chk.count("steps:%s" % ("1-5" if len(h["steps"]) <= 5 else "6-12" if len(h["steps"]) <= 12 else "13-30"))
+        nresp = sum(1 for st in h["steps"] if is_resp(st))
+        chk.count("results:%s" % ("0" if nresp == 0 else "1-5" if nresp <= 5 else "6-12" if nresp <= 12 else "13-30"))
+        count_refreshes(chk, h)
         for m in h["mods"]:
             chk.count("opt:thr=%s,iv=%s,once=%d,close=%d" % (m["thr"], m["iv"], m["once"], m["close"]))
             for nm in h["names"]:
@@ -463,7 +804,8 @@ def check_body(chk, failed, pid, oracle, focus_weights, n_quick, n_thorough, cor
         fails = oracle(h, a)
         if fails:
             bad_idx.append((i, fails))
-    mism_idx = {i for (i, _, _, _) in mism}
+    # report the shortest failing histories first (they shrink fastest and read best)
+    bad_idx.sort(key=lambda x: (len(hs[x[0]]["steps"]), x[0]))
     for i, fails in bad_idx[:3]:
         rules = classify(fails)
         h2, o2 = shrink(chk, hs[i], impl[i], oracle, rules)
@@ -471,10 +813,11 @@ def check_body(chk, failed, pid, oracle, focus_weights, n_quick, n_thorough, cor
             "kind": "history", "probe": "notifier/TestVerifProbeNotifier", "case": fmt(h2), "history": describe(h2),
             "impl_output": o2, "model_output": model[i] if h2 is hs[i] else "(shrunk case; original model output: %s)" % model[i],
             "original_case": cases[i], "oracle_verdict": oracle(h2, o2), "broken": "%s oracle: %s" % (pid, ", ".join(rules)),
+            "failing_histories_in_this_run": len(bad_idx),
             "cmd": "bin/check %s --replay <this file>" % pid})
         reported += 1
     if not bad_idx:
-        for (i, c, a, b) in mism[:3]:
+        for (i, c, a, b) in sorted(mism, key=lambda x: len(x[1]))[:3]:
             chk.violation("corr_%d" % i, {
                 "kind": "history", "probe": "notifier/TestVerifProbeNotifier", "case": c, "history": describe(hs[i]),
                 "impl_output": a, "model_output": b, "oracle_verdict": "the %s oracle holds on the implementation's call log of this case" % pid,
@@ -496,10 +839,13 @@ def replay(pid, oracle, path):
     if not case:
         print("replay file has no case (broken: %s)" % obj.get("broken"))
         return 2
+    case = fmt(parse(case))      # (a legacy line is rewritten with its explicit registration step)
     chk = framework.Check(pid, "quick", int(obj.get("seed", 1)))
     impl, model, mism = chk.differential("notifier", "notifier", "TestVerifProbeNotifier", [case], name="replay")
     fails = oracle(parse(case), impl[0])
     print("case:   " + case)
+    for e in describe(parse(case))["events"]:
+        print("        " + e)
     print("impl:   " + impl[0])
     print("model:  " + model[0])
     print("oracle: " + (", ".join(fails) if fails else "holds"))
